@@ -7,7 +7,9 @@ ROOT = os.path.dirname(os.path.dirname(os.path.abspath(__file__)))
 
 BASE = ("trusted base: the exact Fraction kernel g3dv/kernel.py, the denoted-set comparators in g3dv/desc.py and CPython's "
         "fractions; only generated admitted cases are judged (margin >= 1e-3, no hashed quantity within 5e-13 of a rounding "
-        "boundary); the run is inconclusive (exit 2), not held, when its minimum-observation table is not met")
+        "boundary); the run is inconclusive (exit 2), not held, when its minimum-observation table is not met; besides "
+        "freshly constructed operands, about one case in ten uses an operand with a history (built elsewhere, used, moved "
+        "into place, siblings moved away) and every 40th case is a prelude that uses and moves the library's factory objects")
 
 CHECKS = {
  "C01": ("reference-model monitor: exact rational oracle at the intersection() call boundary + invariant hooks on results",
